@@ -102,6 +102,9 @@ func alphabet(quick bool) []op {
 		ops = append(ops, op{Kind: "limit", Hours: h, Via: "put"})
 	}
 	ops = append(ops, op{Kind: "limit", Hours: 24, Via: "legacy"})
+	// Statistics switched off (limit unchanged); every "limit" operation
+	// switches them on again.
+	ops = append(ops, op{Kind: "disable"})
 	return ops
 }
 
@@ -121,6 +124,8 @@ type model struct {
 	cur   uint32 // hour of the last processed rollover (flush/New/clear)
 	limit uint32 // hours
 	hours map[uint32]*hourRec
+	// off: statistics are switched off; updates are not counted.
+	off bool
 }
 
 func newModel() *model {
@@ -146,6 +151,9 @@ func (m *model) advBy(a string) uint32 {
 func (m *model) apply(o op) {
 	switch o.Kind {
 	case "upd":
+		if m.off {
+			break
+		}
 		h := m.hours[m.cur]
 		if h == nil {
 			h = &hourRec{}
@@ -159,6 +167,9 @@ func (m *model) apply(o op) {
 		m.cur = m.clock
 	case "limit":
 		m.limit = o.Hours
+		m.off = false
+	case "disable":
+		m.off = true
 	case "clear":
 		m.hours = map[uint32]*hourRec{}
 		m.cur = m.clock
@@ -191,7 +202,7 @@ func (m *model) sortedHours() []uint32 {
 
 func (m *model) String() string {
 	var sb strings.Builder
-	fmt.Fprintf(&sb, "clock=%d cur=%d limit=%dh", m.clock, m.cur, m.limit)
+	fmt.Fprintf(&sb, "clock=%d cur=%d limit=%dh off=%v", m.clock, m.cur, m.limit, m.off)
 	for _, h := range m.sortedHours() {
 		r := m.hours[h]
 		fmt.Fprintf(&sb, " [%d(cur%+d):%v", h, int64(h)-int64(m.cur), r.n)
@@ -315,6 +326,12 @@ func (x *sess) apply(o op, m *model) (err error) {
 		}
 		if code != http.StatusOK {
 			return fmt.Errorf("set limit %dh via %s: HTTP %d %s", o.Hours, o.Via, code, body)
+		}
+	case "disable":
+		ms := int64(m.limit) * 3600 * 1000
+		code, body := x.call(http.MethodPut, "/control/stats/config/update", fmt.Sprintf(`{"enabled":false,"interval":%d,"ignored":[]}`, ms))
+		if code != http.StatusOK {
+			return fmt.Errorf("disable: HTTP %d %s", code, body)
 		}
 	case "clear":
 		code, body := x.call(http.MethodPost, "/control/stats_reset", "")
